@@ -550,6 +550,34 @@ pub fn decode_image(image: &[u8], opt: DecodeOptions) -> Result<Decoded, String>
     Ok(out)
 }
 
+/// Documented layout of a retired extent: *every* block starts with a marker that carries the
+/// number of blocks from there to the end of the extent (so that a scan can resume at any block
+/// once the front of the hole has been reused). Walks every complete retired extent the decoder
+/// found: block i must hold a valid marker with `remaining - i`.
+pub fn verify_marker_chains(image: &[u8], decoded: &Decoded) -> Result<usize, String> {
+    let mut checked = 0;
+    for &(start, remaining, complete) in &decoded.retired_extents {
+        if !complete {
+            continue;
+        }
+        for i in 1..remaining {
+            let sector = start + i;
+            let d = &image[sector as usize * BLOCK..(sector as usize + 1) * BLOCK];
+            if &d[..8] != DELETED_TAG {
+                return Err(format!("retired extent {start}+{remaining}: block {sector} (offset {i}) carries no retirement marker"));
+            }
+            if le16(d, 16) != marker_token(sector, d) {
+                return Err(format!("retired extent {start}+{remaining}: marker token mismatch at block {sector} (offset {i})"));
+            }
+            if le64(d, 8) != remaining - i {
+                return Err(format!("retired extent {start}+{remaining}: block {sector} (offset {i}) says {} blocks remain, expected {}", le64(d, 8), remaining - i));
+            }
+        }
+        checked += 1;
+    }
+    Ok(checked)
+}
+
 // ---------------------------------------------------------------- image synthesis
 
 /// Empty device image of the given format version as the corresponding release left it
